@@ -25,6 +25,20 @@ fn main() {
         }
         return;
     }
+    if fam == "exh" {
+        for i in first..first + count {
+            if let Some(c) = gen::exh_case(i) {
+                writeln!(w, "CASE exh-{i}").unwrap();
+                for l in c.lines {
+                    writeln!(w, "{l}").unwrap();
+                }
+            }
+        }
+        if a.get(5).is_none() {
+            eprintln!("exh size {}", gen::exh_size());
+        }
+        return;
+    }
     let f = gen::family(fam);
     let fh = fam.bytes().fold(7u64, |h, b| h.wrapping_mul(131).wrapping_add(u64::from(b)));
     for i in first..first + count {
